@@ -345,6 +345,87 @@ pub fn run() {
             add_bad(&mut bad, k, &ops, w);
         }
     }
+    // (b') the I/O page in full: every ordered pair of writes (address, value) x (address, value) within
+    // 0xF0-0xFF from two prior states (thorough: every first value; quick: 40 first values incl. all
+    // one-hot / one-cold patterns), everything compared afterwards
+    let mut io_pairs = 0u64;
+    {
+        let firsts: Vec<u8> = if quick {
+            let mut v: Vec<u8> = vec![0x00, 0xFF, 0x0F, 0xF0, 0x55, 0xAA, 0x3F, 0xC0, 0x87, 0x9B, 0x8F, 0x9F, 0x09, 0x7F, 0x10, 0x11];
+            for i in 0..8 {
+                v.push(1 << i);
+                v.push(!(1u8 << i));
+            }
+            v.sort();
+            v.dedup();
+            v
+        } else {
+            (0..=255).collect()
+        };
+        let starts: Vec<(usize, Bus, Ref)> = [0usize, 1]
+            .iter()
+            .map(|&pi| {
+                let (mut b, mut r) = base(0);
+                for op in &priors[pi] {
+                    apply(&mut b, &mut r, *op);
+                }
+                (pi, b, r)
+            })
+            .collect();
+        let res = mc::par_ranges(16 * firsts.len() * starts.len(), 64, |rg| {
+            let mut out = vec![];
+            let mut n = 0u64;
+            for i in rg {
+                let (si, rest) = (i / (16 * firsts.len()), i % (16 * firsts.len()));
+                let (a1, v1) = (0xF0 + (rest / firsts.len()) as u8, firsts[rest % firsts.len()]);
+                let (pi, b0, r0) = &starts[si];
+                let r = mc::catch(|| {
+                    let mut found = vec![];
+                    let mut cnt = 0u64;
+                    let (mut b1, mut r1) = (b0.clone(), r0.clone());
+                    b1.write(a1, v1);
+                    r1.write(a1, v1);
+                    for a2 in 0xF0..=0xFFu8 {
+                        for v2 in 0..=255u8 {
+                            let (mut b, mut r) = (b1.clone(), r1.clone());
+                            b.write(a2, v2);
+                            r.write(a2, v2);
+                            cnt += 1;
+                            if let Some((k, w)) = compare(&b, &r) {
+                                if found.len() < 3 {
+                                    found.push((k, a2, v2, w));
+                                }
+                            }
+                        }
+                    }
+                    (cnt, found)
+                });
+                let mk = |a2: u8, v2: u8| -> Vec<Op> {
+                    let mut ops = priors[*pi].clone();
+                    ops.extend([Op::Write(a1, v1), Op::Write(a2, v2)]);
+                    ops
+                };
+                match r {
+                    Ok((cnt, found)) => {
+                        n += cnt;
+                        for (k, a2, v2, w) in found {
+                            if out.len() < 50 {
+                                out.push((format!("pair/{}", k), mk(a2, v2), w));
+                            }
+                        }
+                    }
+                    Err(p) => out.push((format!("panic/{}", p.file()), mk(0xF0, 0), format!("panic at {} in a pair of I/O writes starting with write({:#04x},{:#04x}): {}", p.site(), a1, v1, p.msg))),
+                }
+            }
+            (n, out)
+        });
+        for (n, out) in res {
+            io_pairs += n;
+            for (k, ops, w) in out {
+                add_bad(&mut bad, k, &ops, w);
+            }
+        }
+    }
     // (d) BFS over operation sequences
     let addrs: Vec<u8> = vec![0x00, 0x7F, 0xEE, 0xEF, 0xF0, 0xF1, 0xF2, 0xF3, 0xF4, 0xF5, 0xF6, 0xF7, 0xF8, 0xF9, 0xFA, 0xFB, 0xFC, 0xFD, 0xFE, 0xFF];
     let vals: Vec<u8> = vec![0x00, 0x01, 0x80, 0xC7, 0xFF];
@@ -455,12 +536,12 @@ pub fn run() {
             ctx.violation(k.clone(), format!("{} ({} cases in class)", w, n), l.clone());
         }
     }
-    ctx.set("states", stats.states as u64 + singles + pairs);
-    ctx.set("transitions", stats.transitions as u64 + singles * 2 + pairs * 4);
-    ctx.set("traces_validated_against_impl", stats.transitions as u64 + singles + pairs);
-    ctx.set("evaluations", stats.transitions as u64 + singles + pairs);
+    ctx.set("states", stats.states as u64 + singles + pairs + io_pairs);
+    ctx.set("transitions", stats.transitions as u64 + singles * 2 + pairs * 4 + io_pairs * 2);
+    ctx.set("traces_validated_against_impl", stats.transitions as u64 + singles + pairs + io_pairs);
+    ctx.set("evaluations", stats.transitions as u64 + singles + pairs + io_pairs);
     ctx.set("distinct_nontrivial", stats.states);
-    ctx.set("rule", "single: write(a,v) then read, all 256 x 256, from 3 prior states; pairs: all 65 536 ordered address pairs x 2 value pairs; BFS: every sequence of the operation alphabet to the depth, states deduplicated on the reference state; after every operation all 256 addresses are read and RAM, outputs, MICR bit and the board are compared with REF-BUS; every read is checked to leave the Bus value unchanged (PartialEq)");
+    ctx.set("rule", "single: write(a,v) then read, all 256 x 256, from 3 prior states; pairs: all 65 536 ordered address pairs x 2 value pairs, and inside the I/O page every ordered pair of (address, value) writes (quick: 32 first values); BFS: every sequence of the operation alphabet to the depth, states deduplicated on the reference state; after every operation all 256 addresses are read and RAM, outputs, MICR bit and the board are compared with REF-BUS; every read is checked to leave the Bus value unchanged (PartialEq)");
     ctx.set("exhaustive", !stats.cap_hit);
     ctx.set("bounds", format!("BFS depth {} over {} operations (20 addresses x 5-10 values writes, 20 reads, 4 input setters, 5 board setters, cpu/master reset, RAM reset)", depth, alphabet.len()));
     ctx.set("bfs_states", stats.states);
@@ -468,6 +549,7 @@ pub fn run() {
     ctx.set("bfs_frontiers", Json::Arr(stats.frontier_sizes.iter().map(|n| Json::Int(*n as i64)).collect()));
     ctx.set("single_operations", singles);
     ctx.set("pair_operations", pairs);
+    ctx.set("io_page_write_pairs", io_pairs);
     ctx.set("distinct_outcomes", stats.states);
     ctx.sample(line(&[Op::Write(0xEF, 0xC7), Op::Write(0xF0, 0x80), Op::Read(0xEF)]));
     ctx.sample(line(&priors[2]));
